@@ -31,7 +31,47 @@ class Ctx:
         return self.time_left() <= 0
 
     def tmpdir(self, prefix="d"):
-        return tempfile.mkdtemp(prefix=prefix, dir=self.scratch)
+        # under the shard's working directory, whose name is part of the varied environment (spaces, non-ASCII ...)
+        return tempfile.mkdtemp(prefix=prefix, dir=os.getcwd() if os.getcwd().startswith(self.scratch) else self.scratch)
+
+
+AMBIENT_NAMES = ["h", "dir with spaces", "r\u00e9pertoire-\u00fc", "x" * 90, "semi;colon&amp", "-dash", "a.b.c"]
+AMBIENT_TZ = ["UTC", "Asia/Kolkata", "America/St_Johns", "Pacific/Kiritimati", "Europe/Berlin", "Australia/Lord_Howe"]
+
+
+def set_ambient(spec, scratch):
+    """Process environment of this shard, varied from shard to shard (reproducibly; recorded in violations and re-used
+    by --replay): the names of the home and working directories (spaces, non-ASCII, long, shell characters), the umask,
+    the time zone, the C-library locale and the recursion limit. All are environments the unchanged code works in; what
+    the code under test must not do is depend on them."""
+    rep = spec.get("replay") if isinstance(spec.get("replay"), dict) else {}
+    amb = rep.get("ambient")
+    if not amb:
+        r = random.Random(f"ambient/{spec.get('seed', 0)}/{spec.get('name', '')}/{spec.get('index', 0)}")
+        amb = {"home": r.choice(AMBIENT_NAMES), "cwd": r.choice(AMBIENT_NAMES), "umask": r.choice([0o022, 0o077, 0o002, 0o027]),
+               "tz": r.choice(AMBIENT_TZ), "locale": r.choice(["C", "C.UTF-8", ""]),
+               "recursionlimit": r.choice([1000, 1000, 700, 5000])}
+        if os.environ.get("VERIF_AMBIENT") == "plain":
+            amb = {"home": "h", "cwd": "h", "umask": 0o022, "tz": "UTC", "locale": "", "recursionlimit": 1000}
+    home = os.path.join(scratch, "H" + amb["home"])
+    cwd = os.path.join(scratch, "W" + amb["cwd"])
+    os.makedirs(home, exist_ok=True)
+    os.makedirs(cwd, exist_ok=True)
+    os.environ["HOME"] = home
+    os.chdir(cwd)
+    os.umask(amb["umask"])
+    os.environ["TZ"] = amb["tz"]
+    try:
+        time.tzset()
+    except Exception:
+        pass
+    try:
+        import locale
+        locale.setlocale(locale.LC_ALL, amb["locale"])
+    except Exception:
+        amb["locale"] = "(unavailable)"
+    sys.setrecursionlimit(amb["recursionlimit"])
+    return amb
 
 
 def main():
@@ -40,8 +80,7 @@ def main():
         spec = json.load(f)
     from vlib import common, instrument
     scratch = tempfile.mkdtemp(prefix="verif_w_", dir=common.scratch_root())
-    os.environ["HOME"] = scratch
-    os.chdir(scratch)
+    ambient = set_ambient(spec, scratch)
     repo = os.environ.get("VERIF_REPO", "/repo")
     if repo not in sys.path:
         sys.path.insert(0, repo)
@@ -76,11 +115,13 @@ def main():
         for v in res.get("violations", []):
             if isinstance(v.get("case"), dict):
                 v["case"].setdefault("pythonhashseed", int(os.environ.get("PYTHONHASHSEED", "0") or 0))
+                v["case"].setdefault("ambient", ambient)
                 if sys.flags.optimize:
                     v["case"].setdefault("python_O", True)
         if sys.flags.optimize:
             res["counters"]["shards_run_under_python_O"] = res["counters"].get("shards_run_under_python_O", 0) + 1
         res["sets"]["functions_entered"] = instrument.functions_entered()
+        res["sets"]["ambient_environments"] = [json.dumps(ambient, sort_keys=True)]
         wsh = sys.modules.get("vlib.wsharness")
         if wsh is not None and getattr(wsh, "SERVE_KWARGS", None):
             res["counters"]["servers_started_through_connector.run_server"] = len(wsh.SERVE_KWARGS)
